@@ -21,7 +21,7 @@ HARNESS = os.path.join(ROOT, "harness")
 BUILD = os.path.join(ROOT, "build")
 REPLAYS = os.path.join(ROOT, "replays")
 EVID = os.path.join(ROOT, "evidence")
-REPO = "/repo"
+REPO = os.environ.get("VERIF_REPO", "/repo")  # VERIF_REPO: a scratch worktree (tools/par_matrix.sh only)
 
 GOENV = dict(os.environ, GOFLAGS="-mod=mod", GOPROXY="off", GOSUMDB="off", GOTOOLCHAIN="local",
              CGO_ENABLED="0")
